@@ -56,6 +56,8 @@ pub struct Scenario {
     pub uni: Vec<u32>,
     /// take a clone before this op and keep using (0) the original / (1) the clone
     pub clone_at: Option<(usize, bool)>,
+    /// at the end, `other.clone_from(&current)` (both are live caches of the same type)
+    pub clone_from_end: bool,
 }
 
 pub struct InjOut {
@@ -138,6 +140,19 @@ pub fn run_faulty(sc: &Scenario, at: u64, lie: bool, sticky: u32) -> InjOut {
         }
         cb_take();
     }
+    if sc.clone_from_end {
+        if let Some(o) = other.as_mut() {
+            if o.clone_from_dyn(sub.as_ref()).is_err() && out.fired.is_none() {
+                out.fired = fired();
+                out.fired_op = "clone_from".into();
+            }
+            // keep using the target of the (possibly interrupted) clone_from
+            for (j, op) in [Op::Put(sc.uni[0]), Op::Get(sc.uni[sc.uni.len() / 2], false), Op::Put(*sc.uni.last().unwrap() + 5), Op::Purge].iter().enumerate() {
+                let _ = o.exec(op, nv_of(total + j));
+            }
+            cb_take();
+        }
+    }
     // traverse everything still reachable: a freed object that is still linked is either a
     // registry hit here or a sanitizer report on the read
     for s in [Some(&sub), other.as_ref()].into_iter().flatten() {
@@ -179,6 +194,63 @@ pub fn run_faulty(sc: &Scenario, at: u64, lie: bool, sticky: u32) -> InjOut {
     out
 }
 
+/// conversions (`From` / `FromIterator`) call user code too (Hash/Eq of the keys, Clone for the
+/// borrowed inputs, Drop of replaced values): a panic at the i-th such call must not lead to a
+/// double drop either. Returns (ticks, problem).
+pub fn run_conversion_injected(which: u8, keys: &[u32], at: u64) -> (u64, Option<(String, String)>, Option<Site>) {
+    use caches::{Cache, RawLRU};
+    use std::collections::{LinkedList, VecDeque};
+    reg_reset();
+    reset_ticks();
+    #[cfg(feature = "talloc")]
+    let a0 = crate::talloc::stats();
+    ticking(true);
+    if at > 0 {
+        arm(at);
+    }
+    let mk = |keys: &[u32]| -> Vec<(TKey, TVal)> { keys.iter().enumerate().map(|(i, k)| (TKey::new(*k), TVal::new(i as u64 + 1))).collect() };
+    let _ = guarded(|| {
+        let mut c: RawLRU<TKey, TVal> = match which % 7 {
+            0 => RawLRU::from(mk(keys)),
+            1 => mk(keys).into_iter().collect(),
+            2 => {
+                let v = mk(keys);
+                RawLRU::from(&v[..])
+            }
+            3 => {
+                let mut v = mk(keys);
+                RawLRU::from(&mut v[..])
+            }
+            4 => RawLRU::from(mk(keys).into_iter().collect::<VecDeque<_>>()),
+            5 => RawLRU::from(mk(keys).into_iter().collect::<LinkedList<_>>()),
+            _ => {
+                let mut it = mk(keys).into_iter().chain(mk(&[7, 8, 9, 7]));
+                let arr: [(TKey, TVal); 4] = [it.next().unwrap(), it.next().unwrap(), it.next().unwrap(), it.next().unwrap()];
+                RawLRU::from(arr)
+            }
+        };
+        c.put(TKey::new(1), TVal::new(99));
+        let _ = c.get(&KNum(0));
+        c.purge();
+    });
+    ticking(false);
+    let f = fired();
+    disarm();
+    let t = ticks();
+    let mut problem = None;
+    if let Some(e) = reg_take_errors().first() {
+        problem = Some(("double-drop".to_string(), format!("{} (conversion kind {} of keys {:?})", e, which % 7, keys)));
+    }
+    #[cfg(feature = "talloc")]
+    {
+        let a = crate::talloc::stats();
+        if a.bad_free != a0.bad_free {
+            problem = Some(("invalid-free".into(), format!("a heap block was freed twice during/after conversion kind {} of keys {:?}", which % 7, keys)));
+        }
+    }
+    (t, problem, f)
+}
+
 fn gen_scenario(rng: &mut Rng, thorough: bool) -> Scenario {
     let kind = *rng.pick(&KINDS);
     let mut cfg = random_cfg(kind, rng, false);
@@ -212,7 +284,8 @@ fn gen_scenario(rng: &mut Rng, thorough: bool) -> Scenario {
     } else {
         None
     };
-    Scenario { cfg, ops, uni, clone_at }
+    let clone_from_end = clone_at.is_some() && rng.chance(1, 2);
+    Scenario { cfg, ops, uni, clone_at, clone_from_end }
 }
 
 fn record(out: &mut ShardOut, sc: &Scenario, at: u64, rule: &str, detail: String, site: Option<Site>, fired_op: &str) {
@@ -220,7 +293,7 @@ fn record(out: &mut ShardOut, sc: &Scenario, at: u64, rule: &str, detail: String
     extra.insert("inject-at".to_string(), at.to_string());
     extra.insert("nkeys".to_string(), sc.uni.len().to_string());
     if let Some((i, k)) = sc.clone_at {
-        extra.insert("clone".to_string(), format!("{}:{}", i, k as u8));
+        extra.insert("clone".to_string(), format!("{}:{}:{}", i, k as u8, sc.clone_from_end as u8));
     }
     let site_name = site.map(|s| SITE_NAMES[s as usize]).unwrap_or("?");
     out.add(Found {
@@ -247,6 +320,39 @@ pub fn c18_suite(ctx: &Ctx) -> ShardOut {
     set_heapy(ctx.heapy);
     // ctx.ops = budget of injected runs
     let mut runs = 0u64;
+    // conversions under injection (a small share of the budget)
+    {
+        let mut conv_runs = 0u64;
+        let mut round = 0u8;
+        while conv_runs < ctx.ops / 8 && Instant::now() < deadline {
+            round = round.wrapping_add(1);
+            let n = rng.range(4, 9) as usize;
+            let span = rng.range(2, 7);
+            let keys: Vec<u32> = (0..n).map(|_| rng.below(span) as u32).collect();
+            let (nt, p0, _) = run_conversion_injected(round, &keys, 0);
+            if let Some((rule, d)) = p0 {
+                out.add(Found { v: Violation { prop: "C18".into(), rule: rule.clone(), sig: format!("C18|conversion|{}|none", rule), detail: format!("(no panic injected) {}", d), step: 0 }, cfg: Cfg::lru(1), kt: KeyType::Tracked, ops: vec![], universe: vec![], seeds: [0; 4], extra: BTreeMap::new() });
+            }
+            let stride = if ctx.inject_stride > 1 { ctx.inject_stride } else { 1 };
+            let mut i = 1 + if stride > 1 { rng.below(stride) } else { 0 };
+            while i <= nt {
+                let (_, p, f) = run_conversion_injected(round, &keys, i);
+                conv_runs += 1;
+                runs += 1;
+                if let Some(site) = f {
+                    out.cov.monitored += 1;
+                    out.cov.triples.insert(format!("inject|conversion{}|{}", round % 7, SITE_NAMES[site as usize]));
+                }
+                if let Some((rule, d)) = p {
+                    let site_name = f.map(|s| SITE_NAMES[s as usize]).unwrap_or("?");
+                    let mut extra = BTreeMap::new();
+                    extra.insert("note".to_string(), "conversion scenario (re-run the shard)".to_string());
+                    out.add(Found { v: Violation { prop: "C18".into(), rule: rule.clone(), sig: format!("C18|conversion|{}|{}", rule, site_name), detail: format!("panic injected at user-code call #{} ({}): {}", i, site_name, d), step: i as usize }, cfg: Cfg::lru(1), kt: KeyType::Tracked, ops: vec![], universe: vec![], seeds: [0; 4], extra });
+                }
+                i += stride;
+            }
+        }
+    }
     // the injection machinery prints the shard summary even if a later history hangs
     while runs < ctx.ops && Instant::now() < deadline {
         let sc = gen_scenario(&mut rng, ctx.thorough);
@@ -348,7 +454,7 @@ pub fn c03_chaotic(ctx: &Ctx, out: &mut ShardOut, budget: u64) {
 pub fn replay(cfg: &Cfg, ops: &[Op], extra: &BTreeMap<String, String>) -> Option<(String, String)> {
     if extra.contains_key("sticky") || extra.contains_key("lie-at") {
         let nk: u32 = extra.get("nkeys")?.parse().ok()?;
-        let sc = Scenario { cfg: cfg.clone(), ops: ops.to_vec(), uni: (0..nk).collect(), clone_at: None };
+        let sc = Scenario { cfg: cfg.clone(), ops: ops.to_vec(), uni: (0..nk).collect(), clone_at: None, clone_from_end: false };
         let r = if let Some(s) = extra.get("sticky") {
             run_faulty(&sc, 0, false, s.parse().ok()?)
         } else {
@@ -360,10 +466,11 @@ pub fn replay(cfg: &Cfg, ops: &[Op], extra: &BTreeMap<String, String>) -> Option
     let at: u64 = extra.get("inject-at")?.parse().ok()?;
     let nk: u32 = extra.get("nkeys")?.parse().ok()?;
     let clone_at = extra.get("clone").and_then(|c| {
-        let (a, b) = c.split_once(':')?;
-        Some((a.parse().ok()?, b == "1"))
+        let p: Vec<&str> = c.split(':').collect();
+        Some((p.first()?.parse().ok()?, p.get(1) == Some(&"1")))
     });
-    let sc = Scenario { cfg: cfg.clone(), ops: ops.to_vec(), uni: (0..nk).collect(), clone_at };
+    let cfe = extra.get("clone").map(|c| c.split(':').nth(2) == Some("1")).unwrap_or(false);
+    let sc = Scenario { cfg: cfg.clone(), ops: ops.to_vec(), uni: (0..nk).collect(), clone_at, clone_from_end: cfe };
     let r = run_injected(&sc, at);
     println!("fired: {:?} during {}; ticks {}", r.fired.map(|s| SITE_NAMES[s as usize]), r.fired_op, r.ticks);
     r.problem
